@@ -236,6 +236,8 @@ def jobs(tier, seed):
     vals = [v] if tier == "quick" else [0, 1, 2]
     specs = [("conv", n, tier) for n in NDIMS]
     specs.append(("const", 0, tier))
+    for n in (1, 2, 3, 5):
+        specs.append(("setters", n, tier))
     for vv in vals:
         for backend in ("iminuit", "scipy"):
             for model in ("lin", "quad"):
@@ -508,6 +510,76 @@ def run_const(res):
 
 
 # ----------------------------------------------------------------------------------------------------------------------
+# one object re-used: every sequence of assignments (sigma / cl / delta_nll) and reads; the conversion must always start from
+# the quantity assigned last (a cached value of the other representation must not survive an assignment)
+
+SETTER_OPS = [("set_sigma", 0.5), ("set_sigma", 2.0), ("set_cl", 0.3), ("set_cl", 0.9), ("set_delta_nll", 1.0), ("set_delta_nll", 6.25), ("read_cl", None), ("read_sigma", None), ("read_delta_nll", None)]
+
+
+def _setter_history(n, start, seq):
+    """-> list of (observable, expected, actual) mismatches for one history on one real object"""
+    from kafe2.core.confidence import ConfidenceLevel
+
+    kind0, val0 = start
+    obj = ConfidenceLevel(n_dimensions=n, **{kind0: val0})
+    cur = (kind0, val0)  # the defining quantity
+    bad = []
+    for op, val in seq:
+        if op.startswith("set_"):
+            setattr(obj, op[4:], val)
+            cur = (op[4:], val)
+            continue
+        if cur[0] == "cl":
+            exp_cl = cur[1]
+            exp_sigma = None  # checked through the residual in cl
+        else:
+            sig = cur[1] if cur[0] == "sigma" else math.sqrt(cur[1])
+            exp_cl, exp_sigma = ref_cl(n, sig), sig
+        got = getattr(obj, op[5:])
+        if op == "read_cl":
+            if not abs(got - exp_cl) <= TOL_CL:
+                bad.append(("reuse:cl", exp_cl, got))
+        else:
+            got_sigma = got if op == "read_sigma" else math.sqrt(got)
+            if exp_sigma is not None:
+                if not abs(got_sigma - exp_sigma) <= 1e-12 * max(1.0, exp_sigma):
+                    bad.append(("reuse:" + op[5:], exp_sigma if op == "read_sigma" else exp_sigma**2, got))
+            elif not abs(ref_cl(n, got_sigma) - exp_cl) <= TOL_INV:
+                bad.append(("reuse:" + op[5:] + "(cl)", exp_cl, ref_cl(n, got_sigma)))
+    return bad
+
+
+def run_setters(res, n, depth):
+    import itertools
+
+    starts = [("sigma", 1.0), ("cl", 0.5), ("delta_nll", 2.25)]
+    seen = set()
+    for start in starts:
+        for L in range(1, depth + 1):
+            for seq in itertools.product(SETTER_OPS, repeat=L):
+                if not seq[-1][0].startswith("read_"):
+                    continue
+                bad = _setter_history(n, start, seq)
+                res.executions += 1
+                res.transitions += L
+                res.evaluations += sum(1 for o in seq if o[0].startswith("read_"))
+                key = ("setters", n, start, seq)
+                res.state(key)
+                if any(o[0].startswith("set_") for o in seq):
+                    res.nontriv(key)
+                res.observe((n, start, seq, len(bad)))
+                res.outcomes[("setters", start[0], "MISMATCH" if bad else "ok")] += 1
+                for check, exp, act in bad:
+                    k2 = (check, tuple(o[0] for o in seq))
+                    if k2 in seen:
+                        continue
+                    seen.add(k2)
+                    res.violation("setters|n=%d|%s|%s" % (n, start[0], ";".join(o[0] for o in seq)), dict(kind="setters", n=n, start=list(start), seq=[list(o) for o in seq]), check, exp, act, "wrong-value")
+    res.facts["setter-histories"] += 1
+    res.sample(dict(kind="setters", n=n, depth=depth, ops=[o[0] for o in SETTER_OPS]))
+
+
+# ----------------------------------------------------------------------------------------------------------------------
 # profile arrows
 
 
@@ -718,6 +790,8 @@ def run_job(spec):
         run_conv(res, spec[1])
     elif kind == "const":
         run_const(res)
+    elif kind == "setters":
+        run_setters(res, spec[1], 4 if spec[2] == "quick" else 5)
     elif kind == "profile":
         _, backend, model, v, par, sm, arrows, chunk, nchunk, tier = spec
         run_profile(res, backend, model, v, par, sm, [arrows], chunk, nchunk, tier)
@@ -751,6 +825,9 @@ def replay(history):
             ok = "exc" not in ca and "exc" not in cb and cb["sigma"] > ca["sigma"]
             bad = [] if ok else [("sigma_strictly_increasing", "increasing", [ca.get("sigma"), cb.get("sigma")])]
         out = [dict(observable=c, expected=e, actual=a, mode="exception" if c.endswith(":exception") else "wrong-value") for c, e, a in bad]
+    elif kind == "setters":
+        bad = _setter_history(int(h["n"]), tuple(h["start"]), [tuple(o) for o in h["seq"]])
+        out = [dict(observable=c, expected=e, actual=a, mode="wrong-value") for c, e, a in bad]
     elif kind == "const":
         case = h["case"]
         bad, _ = judge_const((case[0], case[1], float(case[2]), case[3]))
